@@ -89,6 +89,7 @@ def run_case(seed, tier, rec, st):
         fam.exec_src(ANN_IMPORT)
         tg = TypeGen(fam, rng, dc_config_fn=config_fn, allow_pattern=False, mixins=("DataClassDictMixin", "DataClassORJSONMixin"))
         tg.allow_self = False
+        tg.allow_stype = False       # a SerializableType without annotations has no schema
         kind = rng.random()
         facts = {"kind": "grammar"}
         if kind < 0.12:
@@ -139,6 +140,9 @@ def run_case(seed, tier, rec, st):
             t = tg.dataclass(rng.randint(0, 2)) if rng.random() < 0.6 else tg.type(rng.randint(0, 2))
             types_ = [t]
             facts["type_kinds"] = sorted({n[0] for n in common.deep_nodes(fam, t)})
+            # finding F20 (a union serializes a later container member's value unconverted) also reaches schema
+            # defaults, which are rendered by the serializer
+            facts["union_copy_shortcut"] = common.union_copy_fact(fam, t)
         ns = fam.module.__dict__
         for t in types_:
             tsrc = t[1] if t[0] == "raw" else tast.render(t)
@@ -168,7 +172,7 @@ def run_case(seed, tier, rec, st):
                 try:
                     json.dumps(sd)
                 except Exception as e:
-                    rec.violation("document-not-json-serialisable", dict(det, error=str(e)[:200]), facts)
+                    rec.violation("document-not-json-serialisable", dict(det, error=str(e)[:200]), dict(facts, encoded_only_basic=False))
                     ok = False
                 try:
                     Draft202012Validator.check_schema(sd)
@@ -255,7 +259,8 @@ def run_case(seed, tier, rec, st):
             except RecursionError:
                 rec.violation("builder:RecursionError", {"type": tsrc}, dict(facts, exc="RecursionError"))
             except Exception as e:
-                rec.violation(f"builder:{type(e).__name__}", {"type": tsrc, "error": f"{type(e).__name__}: {e}"[:300], "family": fam.to_json()}, dict(facts, exc=type(e).__name__, msg=str(e)[:100]))
+                rec.violation(f"builder:{type(e).__name__}", {"type": tsrc, "error": f"{type(e).__name__}: {e}"[:300], "family": fam.to_json()},
+                              dict(facts, exc=type(e).__name__, msg=str(e)[:100], **({"encoded_only_basic": False} if "not JSON serializable" in str(e) else {})))
         rec.sample({"types": [t[1] if t[0] == "raw" else tast.render(t) for t in types_], "facts": facts})
     finally:
         fam.dispose()
